@@ -379,10 +379,17 @@ theorem findOrAddCore_cases (m : Mgr) (i : Nat) (v w : Int)
 theorem RefExact.isSome {m : Mgr} {ext : Nat → Nat} (h : RefExact m ext) (u : Int) (hu : m.tbl.Mem u) :
     (m.ref[u.natAbs]?).isSome := (h.dom _).mpr hu
 
+/-- every stored edge points to a node of the table (the only clause of `WF` the
+reference-count lemmas for `find_or_add` need; it also holds in the middle of `swap`,
+when levels are temporarily not ordered) -/
+def Tbl.Closed (t : Tbl) : Prop := ∀ u n, t.node? u = some n → t.Mem n.lo ∧ t.Mem n.hi
+
+theorem WF.closed {t : Tbl} (h : WF t) : t.Closed := fun u n hn => ⟨h.lo_mem u n hn, h.hi_mem u n hn⟩
+
 /-- `find_or_add` keeps the counts exact: a new node starts with count 0 (nobody holds it yet)
 and each of its children gains one stored edge; an existing or eliminated node changes nothing. -/
-theorem findOrAddCore_refExact (m : Mgr) (ext : Nat → Nat) (i : Nat) (v w : Int)
-    (hw : WF m.tbl) (hr : RefExact m ext) :
+theorem findOrAddCore_refExact_of_closed (m : Mgr) (ext : Nat → Nat) (i : Nat) (v w : Int)
+    (hw : m.tbl.Closed) (hr : RefExact m ext) :
     RefExact (findOrAddCore i v w m).2 ext := by
   rcases findOrAddCore_cases m i v w hr.isSome with h | ⟨hmv, hmw, h2, hfree, n, c1, c2, hlo, hhi, -, hc1, hc2, h⟩
   · rw [h]; exact hr
@@ -419,8 +426,8 @@ theorem findOrAddCore_refExact (m : Mgr) (ext : Nat → Nat) (i : Nat) (v w : In
       exfalso
       obtain ⟨k, nn, hk, hkk⟩ := indeg_pos (t := m.tbl) (u := m.minFree) (by omega)
       rcases hkk with hkk | hkk
-      · exact hne _ (hw.lo_mem _ _ hk) hkk.symm
-      · exact hne _ (hw.hi_mem _ _ hk) hkk.symm
+      · exact hne _ (hw _ _ hk).1 hkk.symm
+      · exact hne _ (hw _ _ hk).2 hkk.symm
   refine ⟨?_, ?_, ?_⟩
   · intro u
     show ((((m.ref.insert m.minFree 0).insert v.natAbs (c1 + 1)).insert w.natAbs (c2 + 1))[u]?).isSome ↔
@@ -484,15 +491,15 @@ theorem findOrAddCore_refExact (m : Mgr) (ext : Nat → Nat) (i : Nat) (v w : In
 
 /-- what `find_or_add` does to the counters: nothing, or (new node `n` at the old `minFree`)
 the new node starts at 0 and every other count grows by the number of edges of `n` into it -/
-theorem findOrAddCore_ref_effect (m : Mgr) (ext : Nat → Nat) (i : Nat) (v w : Int)
-    (hw : WF m.tbl) (hr : RefExact m ext) :
+theorem findOrAddCore_ref_effect_of_closed (m : Mgr) (ext : Nat → Nat) (i : Nat) (v w : Int)
+    (hw : m.tbl.Closed) (hr : RefExact m ext) :
     (findOrAddCore i v w m).2 = m ∨
     ∃ n : Nd, m.tbl.AddedAt (findOrAddCore i v w m).2.tbl m.minFree n ∧ n.lvl = i ∧
       n.lo.natAbs = v.natAbs ∧ n.hi.natAbs = w.natAbs ∧ m.tbl.Mem v ∧ m.tbl.Mem w ∧
       (findOrAddCore i v w m).2.ref[m.minFree]? = some 0 ∧
       ∀ u c, u ≠ m.minFree → m.ref[u]? = some c →
         (findOrAddCore i v w m).2.ref[u]? = some (c + edgeCount n u) := by
-  have hr' := findOrAddCore_refExact m ext i v w hw hr
+  have hr' := findOrAddCore_refExact_of_closed m ext i v w hw hr
   rcases findOrAddCore_cases m i v w hr.isSome with h | ⟨hmv, hmw, h2, hfree, n, c1, c2, hlo, hhi, hlvl, -, -, h⟩
   · exact Or.inl h
   right
@@ -527,8 +534,8 @@ theorem findOrAddCore_ref_effect (m : Mgr) (ext : Nat → Nat) (i : Nat) (v w : 
         exfalso
         obtain ⟨k, nn, hk, hkk⟩ := indeg_pos (t := m.tbl) (u := m.minFree) (by omega)
         rcases hkk with hkk | hkk
-        · exact hne _ (hw.lo_mem _ _ hk) hkk.symm
-        · exact hne _ (hw.hi_mem _ _ hk) hkk.symm
+        · exact hne _ (hw _ _ hk).1 hkk.symm
+        · exact hne _ (hw _ _ hk).2 hkk.symm
     have h1 := hne v hmv
     have h2 := hne w hmw
     have : m.minFree ≠ 1 := by omega
@@ -563,31 +570,59 @@ theorem requestReordering_frame (m : Mgr) :
     · split <;> exact ⟨rfl, rfl, rfl, rfl, rfl⟩
     · split <;> exact ⟨rfl, rfl, rfl, rfl, rfl⟩
 
-/-- `find_or_add` (with the reordering request of the decorated entry points) keeps counts exact -/
-theorem findOrAdd_refExact (m : Mgr) (ext : Nat → Nat) (i : Int) (v w : Int)
-    (hw : WF m.tbl) (hr : RefExact m ext) : RefExact (findOrAdd i v w m).2 ext := by
+/-- `findOrAdd` is `findOrAddCore` after an optional reordering request (which touches
+neither the table nor the counters), or an error that leaves such a state -/
+theorem findOrAdd_cases (m : Mgr) (i : Int) (v w : Int) :
+    ∃ m1 : Mgr, m1.tbl = m.tbl ∧ m1.ref = m.ref ∧
+      ((findOrAdd i v w m).2 = m1 ∨ (findOrAdd i v w m).2 = (findOrAddCore i.toNat v w m1).2) := by
   have hfr := requestReordering_frame m
-  have hr1 : RefExact (requestReordering m).2 ext := hr.congr hfr.1 hfr.2.1
-  have hw1 : WF (requestReordering m).2.tbl := by rw [hfr.1]; exact hw
   unfold findOrAdd
   by_cases hc : m.ctx = true
   · simp only [hc, if_true]
     cases hq : requestReordering m with
     | mk r m1 =>
-      rw [hq] at hr1 hw1
+      rw [hq] at hfr
+      refine ⟨m1, hfr.1, hfr.2.1, ?_⟩
       cases r with
-      | error e => exact hr1
+      | error e => exact Or.inl rfl
       | ok x =>
-        simp only
+        simp only []
         by_cases hi : i < 0
-        · simp only [hi, if_true]; exact hr1
-        · simp only [hi, if_false]
-          exact findOrAddCore_refExact m1 ext i.toNat v w hw1 hr1
-  · simp only [hc]
+        · rw [if_pos hi]; exact Or.inl rfl
+        · rw [if_neg hi]; exact Or.inr rfl
+  · refine ⟨m, rfl, rfl, ?_⟩
+    simp only [hc, Bool.false_eq_true, if_false]
     by_cases hi : i < 0
-    · simp only [hi, if_true]; exact hr
-    · simp only [hi, if_false]
-      exact findOrAddCore_refExact m ext i.toNat v w hw hr
+    · rw [if_pos hi]; exact Or.inl rfl
+    · rw [if_neg hi]; exact Or.inr rfl
+
+/-- `find_or_add` (with the reordering request of the decorated entry points) keeps counts exact -/
+theorem findOrAdd_refExact_of_closed (m : Mgr) (ext : Nat → Nat) (i : Int) (v w : Int)
+    (hw : m.tbl.Closed) (hr : RefExact m ext) : RefExact (findOrAdd i v w m).2 ext := by
+  obtain ⟨m1, h1, h2, h | h⟩ := findOrAdd_cases m i v w
+  · rw [h]; exact hr.congr h1 h2
+  · rw [h]
+    exact findOrAddCore_refExact_of_closed m1 ext i.toNat v w (by rw [h1]; exact hw) (hr.congr h1 h2)
+
+/-! the same under the full structural invariant -/
+
+theorem findOrAddCore_refExact (m : Mgr) (ext : Nat → Nat) (i : Nat) (v w : Int)
+    (hw : WF m.tbl) (hr : RefExact m ext) : RefExact (findOrAddCore i v w m).2 ext :=
+  findOrAddCore_refExact_of_closed m ext i v w hw.closed hr
+
+theorem findOrAddCore_ref_effect (m : Mgr) (ext : Nat → Nat) (i : Nat) (v w : Int)
+    (hw : WF m.tbl) (hr : RefExact m ext) :
+    (findOrAddCore i v w m).2 = m ∨
+    ∃ n : Nd, m.tbl.AddedAt (findOrAddCore i v w m).2.tbl m.minFree n ∧ n.lvl = i ∧
+      n.lo.natAbs = v.natAbs ∧ n.hi.natAbs = w.natAbs ∧ m.tbl.Mem v ∧ m.tbl.Mem w ∧
+      (findOrAddCore i v w m).2.ref[m.minFree]? = some 0 ∧
+      ∀ u c, u ≠ m.minFree → m.ref[u]? = some c →
+        (findOrAddCore i v w m).2.ref[u]? = some (c + edgeCount n u) :=
+  findOrAddCore_ref_effect_of_closed m ext i v w hw.closed hr
+
+theorem findOrAdd_refExact (m : Mgr) (ext : Nat → Nat) (i : Int) (v w : Int)
+    (hw : WF m.tbl) (hr : RefExact m ext) : RefExact (findOrAdd i v w m).2 ext :=
+  findOrAdd_refExact_of_closed m ext i v w hw.closed hr
 
 /-- `find_or_add` never removes or changes a node -/
 theorem findOrAddCore_ext (m : Mgr) (i : Nat) (v w : Int)
